@@ -337,16 +337,19 @@ def _formatSystem(event: LogEvent) -> str:
     """
     system = cast(Optional[str], event.get("log_system", None))
     if system is None:
-        level = cast(Optional[NamedConstant], event.get("log_level", None))
-        if level is None:
-            levelName = "-"
-        else:
-            levelName = level.name
+        try:
+            level = cast(Optional[NamedConstant], event.get("log_level", None))
+            if level is None:
+                levelName = "-"
+            else:
+                levelName = level.name
 
-        system = "{namespace}#{level}".format(
-            namespace=cast(str, event.get("log_namespace", "-")),
-            level=levelName,
-        )
+            system = "{namespace}#{level}".format(
+                namespace=cast(str, event.get("log_namespace", "-")),
+                level=levelName,
+            )
+        except Exception:
+            system = "UNFORMATTABLE"
     else:
         try:
             system = str(system)
